@@ -88,6 +88,8 @@ func opaqueStruct(t types.Type) bool {
 	switch p {
 	case "github.com/metal-toolbox/auditevent", "github.com/elastic/go-libaudit/v2/aucoalesce":
 		return false
+	case "github.com/fsnotify/fsnotify":
+		return obj.Name() != "Event" // Event{Name string; Op Op} is plain data
 	case "github.com/elastic/go-libaudit/v2/auparse":
 		return true
 	}
